@@ -19,6 +19,10 @@ def features(r: dict[str, Any]) -> str:
         f.append("mid_is_output")
     if r.get("extra_consumers"):
         f.append("mid_second_consumer")
+    if r.get("extra_captures"):
+        f.append("mid_captured_by_if")
+    if r.get("second_exit_perm"):
+        f.append("second_exit_other_perm")
     for st in r.get("chain", []):
         if isinstance(st, dict):
             if st.get("side"):
